@@ -30,6 +30,15 @@ translator harness/translate_earley.py reads from /repo which variant the source
       `C04_aligned_payload_tree_spells_input`: for trees without bit leaves that IS "serialisation = input".
 * `C04_api_filter` / `C04_api_parse_sound` / `C04_api_generated_parser_sound` — `Fandango.parse` yields only trees of the
       forest on which every constraint's documented meaning holds.
+* COMPOSED with termination (C06) and the scanner-level language (C05), §7 — no fuel left free:
+      `C04_total_parse_sound` — at C06's step bound `totalFuel c = stepBoundN c (chartBound c) + 1` the parse of the
+      source as it is now HAS an answer, the same for every larger budget and the only one any budget gives, and if it
+      is a list of trees they satisfy (1), (3) and the aligned column-level form of (2);
+      `C04_yielded_only_for_language` — a tree is only yielded for a word of the parser's language (`Scan.accepts`: some
+      expansion of the IR is read by the scanners from the first to the last column): soundness at the level of the
+      scanners, the converse of `C05_machine_complete` (new lemma `Proofs/EarleyTotalLang.lean`: the compiled table
+      derives nothing but expansions of the IR); with it `C05_parse_decides_language`: the machine model DECIDES that
+      language.
 * OLD (`Variant.old`, the code before /repo a33087ac; record of finding F36, not a statement about the code as it is):
       `C04_old_unaligned_scan_unsound`, `C04_old_unaligned_scan_accepts_payload` — clause (2) was false off the byte
       boundary; the same theorems say that the parser as it is now yields nothing on the witness (replayed on the
@@ -47,6 +56,8 @@ import Proofs.C04Chart
 import Proofs.C04Compile
 import Proofs.C04Collapse
 import Proofs.C04Sound
+import Proofs.EarleyFuel
+import Proofs.EarleyTotalLang
 import Proofs.Constraint
 import Generated.Cons
 import Generated.Earley
@@ -363,5 +374,74 @@ theorem C04_api_generated_parser_sound (G : Grammar) (v : Variant) (hv : Earley.
   obtain ⟨hf, hd⟩ := C04_api_filter cs forest t ht
   obtain ⟨h1, h2, h3, h4⟩ := C04_generated_parser_sound G v hv inp start pred R hpred hwf hty ho hc hG fuel forest h t hf
   exact ⟨h1, h2, h3, h4, hd⟩
+
+/-! ## 7. composed with termination (C06) and with the scanner-level language (C05): no fuel left free
+
+Possible in ONE Lean theorem since the name clash between the proof families was removed (`Proofs/EarleyBound.lean`:
+`TInv`, `tinv_init`; `colAt_replicate` once, in `Proofs/EarleyCols.lean`). -/
+
+/-- **the ANSWER of the parser is sound.**  For the variant of the source as it is now, every grammar (well-formed
+    bounds, literals of the input's type, no helper-named rule), input, start symbol and prediction order within the
+    table: at C06's step bound `totalFuel` the parse HAS an answer, the same for every larger budget and the only one
+    any budget gives; and if it is a list of trees, every tree is a valid derivation from the start symbol without
+    helper symbols whose leaves tile the input, payload leaves on cell boundaries.  (That the answer is never an
+    exception and is non-empty exactly for the words of the language: `C05_parse_total`,
+    `C05_parse_decides_language`.) -/
+theorem C04_total_parse_sound (G : Grammar) (v : Variant) (hv : Earley.Gen.variant = some v) (inp : Input)
+    (start : String) (pred : Nat → NT → List (List ESym)) (R : RegexOracle)
+    (hpred : ∀ k x rhs, rhs ∈ pred k x → (x, rhs) ∈ compile G v.cap)
+    (hwf : G.wf = true) (hty : G.typed inp.isBytes = true) (ho : OracleOk inp R) (hc : CellsOk inp)
+    (hG : ∀ q ∈ G.rules, isHelperName q.1 = false) :
+    ∃ r, parseComplete (mkCfg G v inp start pred) (totalFuel (mkCfg G v inp start pred)) = some r ∧
+      (∀ fuel, totalFuel (mkCfg G v inp start pred) ≤ fuel → parseComplete (mkCfg G v inp start pred) fuel = some r) ∧
+      (∀ fuel r', parseComplete (mkCfg G v inp start pred) fuel = some r' → r' = r) ∧
+      ∀ ts, r = .ok ts → ∀ t ∈ ts, Valid G R t ∧ t.sym = .nt start ∧ noHelper t = true ∧
+        Tiles inp t.leaves 0 (8 * inp.cells.length) := by
+  have hpol : v.policy = .acyclic := by
+    have hnow : Earley.Gen.variant = some Variant.now := by decide
+    have : v = Variant.now := Option.some.inj (hv.symm.trans hnow)
+    rw [this]; rfl
+  obtain ⟨r, h1, h2, h3⟩ := parse_total (sane_mkCfg G v inp start pred hpred) hpol
+  refine ⟨r, h1, h2, h3, ?_⟩
+  intro ts hr
+  subst hr
+  exact C04_generated_parser_sound G v hv inp start pred R hpred hwf hty ho hc hG _ ts h1
+
+/-- **a tree is only ever yielded for a word of the parser's language** (soundness at the level of the scanners, the
+    converse of C05's completeness): if a parse of the code as it is returns a tree — any budget — then some expansion
+    of the grammar IR from the start symbol (some nesting depth `d`, repetition counts `≤ c`) is a terminal sequence
+    that the scanners of `Model/Scan.lean` read from the first to the last column (`Scan.accepts`,
+    `C05_parser_language_iff`).  `Valid` + `Tiles` do not say this (a tree does not remember which terminal a leaf
+    instantiates, nor that a regex leaf is what `re.match` prefers there); it is proved on the table derivation the
+    chart is sound for (`Proofs/EarleyTotalLang.lean`). -/
+theorem C04_yielded_only_for_language (G : Grammar) (hwf : G.wf = true) (v : Variant)
+    (hv : Earley.Gen.variant = some v) (inp : Input) (start : String) (pred : Nat → NT → List (List ESym))
+    (hpred : ∀ k x rhs, rhs ∈ pred k x → (x, rhs) ∈ compile G v.cap) (fuel : Nat) (ts : List Tree)
+    (h : parseComplete (mkCfg G v inp start pred) fuel = some (.ok ts)) (hne : ts ≠ []) :
+    ∃ c d, Scan.accepts G inp.toInp c d start = true := by
+  have hnow : Earley.Gen.variant = some Variant.now := by decide
+  have : v = Variant.now := Option.some.inj (hv.symm.trans hnow)
+  subst this
+  exact parsed_accepts G hwf inp start pred hpred fuel ts h hne
+
+/-- the hypotheses of the two theorems are met by the witness grammar `<b><b><b><b> b"a" <b><b><b><b>` on `b"a\x1f"`
+    (prediction in table order), and the conclusion of the first is not vacuous: the answer exists -/
+example : Earley.Gen.variant = some Variant.now ∧
+    (∀ k x rhs, rhs ∈ predOfRules (compile wG none) k x → (x, rhs) ∈ compile wG Variant.now.cap) ∧
+    wG.wf = true ∧ wG.typed wInp.isBytes = true ∧ OracleOk wInp (fun _ _ => false) ∧ CellsOk wInp ∧
+    (∀ q ∈ wG.rules, isHelperName q.1 = false) ∧
+    ∃ r, parseComplete (mkCfg wG Variant.now wInp "<start>" (predOfRules (compile wG none)))
+      (totalFuel (mkCfg wG Variant.now wInp "<start>" (predOfRules (compile wG none)))) = some r := by
+  have hpred : ∀ k x rhs, rhs ∈ predOfRules (compile wG none) k x → (x, rhs) ∈ compile wG Variant.now.cap :=
+    fun k x rhs h => predOfRules_mem (rules := compile wG none) (k := k) (x := x) h
+  have ho : OracleOk wInp (fun _ _ => false) := by intro id w l h; cases h
+  have hc : CellsOk wInp := by
+    intro _ c hc
+    simp only [wInp, List.mem_cons, List.not_mem_nil, or_false] at hc
+    rcases hc with rfl | rfl <;> omega
+  refine ⟨by decide, hpred, by decide +kernel, by decide +kernel, ho, hc, by decide +kernel, ?_⟩
+  obtain ⟨r, h1, _⟩ := C04_total_parse_sound wG Variant.now (by decide) wInp "<start>" _ (fun _ _ => false) hpred
+    (by decide +kernel) (by decide +kernel) ho hc (by decide +kernel)
+  exact ⟨r, h1⟩
 
 end FV
